@@ -19,8 +19,10 @@ implementation only.
 
 Where the code does not do what the property asks, the table records the code and the theorem lists the
 exception explicitly (`closedExceptions`, `releasedExceptions`, `roWriteExceptions`,
-`setReadOnly_quiesces_full_refuted`, `sharedRO_two_owners`, `openRO_two_journals_fails`,
-`heldIterator_unspecified`).
+`setReadOnly_quiesces_full_refuted`, `sharedRO_two_owners`, `heldIterator_unspecified`).  Four earlier exceptions
+are gone because the repository was repaired (read-only `Open` with several journals, `NewIterator` racing `Close`,
+`Snapshot.String` on a released snapshot, `Transaction.Write` of an empty batch on a finished transaction): the
+tables and theorems state the repaired behaviour, the old one is kept as a remark where it was recorded.
 -/
 namespace GoLevel.C18
 open GoLevel.Life
@@ -59,15 +61,15 @@ theorem second_open_refused (evs : List SysEv) (id : Nat) (ro : Bool) (j : Nat)
 example : (Sys.run (Sys.init .exclusive) [.open 7 true 1]).1.step (.open 8 false 1)
     = (⟨.exclusive, [7], [7]⟩, .locked) := by decide
 
-/-- After the owner's `Close` the storage is free: the next `Open` (with at most one journal to replay when
-read-only, see `openRO_two_journals_fails`) succeeds and becomes the owner. -/
-theorem available_after_close (evs : List SysEv) (id id' : Nat) (ro : Bool)
+/-- After the owner's `Close` the storage is free: the next `Open` (read-write or read-only, whatever the number
+`j` of journals it has to replay) succeeds and becomes the owner. -/
+theorem available_after_close (evs : List SysEv) (id id' : Nat) (ro : Bool) (j : Nat)
     (h : (Sys.run (Sys.init .exclusive) evs).1.opened = [id]) :
     ((Sys.run (Sys.init .exclusive) evs).1.step (.close id)).2 = .ok
     ∧ ((Sys.run (Sys.init .exclusive) evs).1.step (.close id)).1.owners = []
     ∧ ((Sys.run (Sys.init .exclusive) evs).1.step (.close id)).1.opened = []
-    ∧ ((((Sys.run (Sys.init .exclusive) evs).1.step (.close id)).1.step (.open id' ro 1)).2 = .ok)
-    ∧ ((((Sys.run (Sys.init .exclusive) evs).1.step (.close id)).1.step (.open id' ro 1)).1.opened = [id']) := by
+    ∧ ((((Sys.run (Sys.init .exclusive) evs).1.step (.close id)).1.step (.open id' ro j)).2 = .ok)
+    ∧ ((((Sys.run (Sys.init .exclusive) evs).1.step (.close id)).1.step (.open id' ro j)).1.opened = [id']) := by
   have hi := Sys.run_fst_inv (Sys.init .exclusive) evs Sys.init_inv
   generalize (Sys.run (Sys.init .exclusive) evs).1 = s at *
   obtain ⟨hk, ho, _⟩ := hi
@@ -88,11 +90,20 @@ open on the same storage object at the same time — `single_owner` is about exc
 theorem sharedRO_two_owners :
     (Sys.run (Sys.init .sharedRO) [.open 1 true 1, .open 2 true 1]).1.opened = [2, 1] := by decide
 
-/-- The code as it is: a read-only `Open` that has to replay two journals fails (stale `io.EOF` in
-`recoverJournalRO`) and gives the lock back; the same storage opens read-write. -/
-theorem openRO_two_journals_fails :
-    Sys.run (Sys.init .exclusive) [.open 1 true 2, .open 1 false 2]
-      = (⟨.exclusive, [1], [1]⟩, [.other, .ok]) := by decide
+/-- A read-only `Open` of a free storage succeeds whatever the number of journals it has to replay (a frozen
+buffer that was still unflushed at `Close` leaves two), becomes the owner, and issues no mutating storage action
+while opening; that it then serves exactly the data written before — journal-only data included — is checked on
+the implementation by the harness.  (Remark: before the repair of `recoverJournalRO` such an `Open` failed with
+`io.EOF` as soon as two journals had to be replayed — the finding `openRO:eof-two-journals`.) -/
+theorem openRO_any_journals (k : LockKind) (id j : Nat) :
+    (Sys.init k).step (.open id true j) = (⟨k, [id], [id]⟩, .ok)
+    ∧ (openActs true).all (fun a => !a.mutating) = true
+    ∧ (opened true 0).mode = .openRO := by
+  refine ⟨?_, by decide, rfl⟩
+  cases k <;> simp [Sys.init, Sys.step, Sys.canLock, openCls]
+
+example : Sys.run (Sys.init .exclusive) [.open 1 true 2, .close 1, .open 2 true 3, .open 3 false 1]
+      = (⟨.exclusive, [2], [2]⟩, [.ok, .ok, .ok, .locked]) := by decide
 
 /-! ## closed -/
 
@@ -101,9 +112,9 @@ def voidMethods : List (String × String) :=
   [("Snapshot", "Release"), ("Snapshot", "String"), ("Transaction", "Discard"), ("Iterator", "Release"),
    ("Iterator", "Valid"), ("Iterator", "Key"), ("Iterator", "Value"), ("Iterator", "SetReleaser")]
 
-/-- After `Close`, a finished transaction's `Write` of an empty batch returns nil (it returns before looking at
-anything); `Discard` has no error result. -/
-def closedExceptions : List TxM := [.writeEmpty, .discard]
+/-- After `Close`, `Discard` has no error result.  (`Write` of an empty batch used to be listed here too: it
+returned nil before looking at anything; repaired, it now reports the finished transaction.) -/
+def closedExceptions : List TxM := [.discard]
 
 /-- After `Close`: every `DB` method returns `ErrClosed` (so does a second `Close`); no event — method call on the
 DB or on any handle, background step — emits any storage action or changes the state; snapshots still held
@@ -139,8 +150,8 @@ example : (run ⟨true⟩ ⟨.openRW, true, true, 2, 0, .live⟩
       [.db .close 1, .db .close 0, .db .get 1, .db .put 1, .tx .get 0, .tx .commit 0, .bgFlush 1, .bgCompact 1,
        .snap .live .get 1, .iter .live .next 1]).2 = [.remove, .remove, .closeFile, .unlock] := by decide
 example : (step ⟨true⟩ ⟨.closed, false, true, 2, 0, .discarded⟩ (.db .close 0)).cls = .closed := by decide
-/-- the exception is real -/
-example : (txTable .closed .live .writeEmpty).cls = .ok := by decide
+/-- the transaction that was open at `Close` has been discarded by it: even an empty `Write` says so -/
+example : (txTable .closed .live .writeEmpty).cls = .txdone ∧ (txTable .closed .live .discard).cls = .ok := by decide
 
 /-- The code as it is: an iterator that is still held when the DB is closed (which the documentation of `Close`
 declares not safe) is not covered: moves may succeed, report `ErrClosed` or `table.ErrReaderReleased`, report a bogus corruption error or panic. -/
@@ -150,15 +161,16 @@ theorem heldIterator_unspecified (m : IterM) (h : m.isMove = true) :
 
 /-! ## released handles -/
 
-/-- What released / finished handles do that is not "their own error": `Snapshot.String` on a released snapshot
-panics (nil `snap.elem`); `SetReleaser` on a released iterator panics (documented for `util.ReleaseSetter`);
-`Release`/`Discard` again are no-ops; `Write` of an empty batch on a finished transaction returns nil; `Commit`
+/-- What released / finished handles do that is not "their own error": `Snapshot.String` has no error result
+(it prints `leveldb.Snapshot{released}`; it used to panic on the nil `snap.elem`: repaired); `SetReleaser` on a
+released iterator panics (documented for `util.ReleaseSetter`); `Release`/`Discard` again are no-ops; `Commit`
 of a finished transaction after `Close` returns `ErrClosed`; and on a released iterator `Valid`/`Key`/`Value`/
-`Error` report nothing until a move is attempted (`it.Release(); it.Error()` is the documented idiom). -/
+`Error` report nothing until a move is attempted (`it.Release(); it.Error()` is the documented idiom).
+(`Transaction.Write` of an empty batch used to be listed: repaired, it answers the done-error.) -/
 def releasedExceptions : List (String × String) :=
   [("Snapshot", "String"), ("Snapshot", "Release"), ("Iterator", "SetReleaser"), ("Iterator", "Release"),
    ("Iterator", "Valid"), ("Iterator", "Key"), ("Iterator", "Value"), ("Iterator", "Error"),
-   ("Transaction", "Discard"), ("Transaction", "Write:empty"), ("Transaction", "Commit")]
+   ("Transaction", "Discard"), ("Transaction", "Commit")]
 
 /-- In every mode of the DB: a released snapshot answers `ErrSnapshotReleased` (the iterator it hands out carries
 that error); a released iterator answers `ErrIterReleased` to every move, and from then on through `Error()`;
@@ -167,14 +179,14 @@ methods are `releasedExceptions`, and what they do is stated too. -/
 theorem released_handles (mode : Mode) :
     (∀ m, m ≠ .release → m ≠ .string → snapTable mode .released m = ⟨.released, [], false⟩)
     ∧ snapTable mode .released .release = ⟨.ok, [], false⟩
-    ∧ snapTable mode .released .string = ⟨.panic, [], false⟩
+    ∧ snapTable mode .released .string = ⟨.ok, [], false⟩
     ∧ (∀ m, m.isMove = true → iterTable mode .released m = ⟨.released, [], false⟩)
     ∧ (∀ m, m.isMove = false → m ≠ .setReleaser → iterTable mode .released m = ⟨.ok, [], false⟩)
     ∧ (∀ m, m ≠ .setReleaser → iterTable mode .releasedUsed m = ⟨.released, [], false⟩)
     ∧ (∀ h, h ≠ .live → iterTable mode h .setReleaser = ⟨.panic, [], false⟩)
-    ∧ (∀ t m, t.done = true → m ≠ .discard → m ≠ .writeEmpty → m ≠ .commit →
+    ∧ (∀ t m, t.done = true → m ≠ .discard → m ≠ .commit →
         txTable mode t m = ⟨.txdone, [], false⟩)
-    ∧ (∀ t, t.done = true → txTable mode t .discard = ⟨.ok, [], false⟩ ∧ txTable mode t .writeEmpty = ⟨.ok, [], false⟩
+    ∧ (∀ t, t.done = true → txTable mode t .discard = ⟨.ok, [], false⟩
         ∧ txTable mode t .commit = ⟨if mode = .closed then .closed else .txdone, [], false⟩) := by
   refine ⟨?_, ?_, ?_, ?_, ?_, ?_, ?_, ?_, ?_⟩
   · intro m h1 h2; cases m <;> first | rfl | simp_all
@@ -184,7 +196,7 @@ theorem released_handles (mode : Mode) :
   · intro m h1 h2; cases m <;> first | rfl | simp_all [IterM.isMove]
   · intro m h; cases m <;> first | rfl | simp_all
   · intro h hl; cases h <;> first | rfl | simp_all
-  · intro t m ht h1 h2 h3
+  · intro t m ht h1 h2
     cases t <;> cases m <;> cases mode <;> first | rfl | simp_all [TxSt.done]
   · intro t ht
     cases t <;> cases mode <;> first | decide | simp_all [TxSt.done]
@@ -193,6 +205,7 @@ example : snapTable .openRW .released .get = ⟨.released, [], false⟩ := by de
 example : iterTable .switchedRO .released .seek = ⟨.released, [], false⟩ := by decide
 example : iterTable .openRO .released .error = ⟨.ok, [], false⟩ ∧ iterTable .openRO .releasedUsed .error = ⟨.released, [], false⟩ := by decide
 example : txTable .openRW .committed .put = ⟨.txdone, [], false⟩ := by decide
+example : txTable .openRW .discarded .writeEmpty = ⟨.txdone, [], false⟩ ∧ snapTable .closed .released .string = ⟨.ok, [], false⟩ := by decide
 
 /-! ## read-only -/
 
@@ -381,7 +394,7 @@ end GoLevel.C18
 namespace GoLevel
 def C18.theorems : List String :=
   ["GoLevel.C18.single_owner", "GoLevel.C18.second_open_refused", "GoLevel.C18.available_after_close",
-   "GoLevel.C18.sharedRO_two_owners", "GoLevel.C18.openRO_two_journals_fails",
+   "GoLevel.C18.sharedRO_two_owners", "GoLevel.C18.openRO_any_journals",
    "GoLevel.C18.closed_is_closed", "GoLevel.C18.heldIterator_unspecified", "GoLevel.C18.released_handles",
    "GoLevel.C18.ro_rejects_writes", "GoLevel.C18.ro_no_mutation",
    "GoLevel.C18.setReadOnly_enters", "GoLevel.C18.setReadOnly_quiesces_partial", "GoLevel.C18.drain_completes",
